@@ -9,6 +9,8 @@ for mf in sorted(glob.glob(os.path.join(V, "seeded", "*", "*", "meta.json"))):
     pid = d.split(os.sep)[-2]
     if want and pid not in want:
         continue
+    if json.load(open(mf)).get("superseded"):
+        continue
     q = subprocess.run(["sh", os.path.join(V, "tools/seedcheck.sh"), pid, d, "quick"], stdout=subprocess.PIPE, stderr=subprocess.STDOUT)
     lines = [l for l in q.stdout.decode().splitlines() if l.strip()]
     viol = [l for l in lines if l.startswith("VIOLATION")]
